@@ -29,6 +29,7 @@ fn with_prop(id: &str, f: &mut dyn FnMut(&dyn Runner) -> i32) -> i32 {
         "C15" => f(&props::c15::prop()),
         "C16" => f(&props::c16::prop()),
         "C17" => f(&props::c17::C17),
+        "C18" => f(&props::c18::C18),
         "C19" => f(&props::c19::C19),
         "C20" => f(&props::c20::prop()),
         _ => {
